@@ -13,6 +13,7 @@ package main
 
 import (
 	"bufio"
+	"encoding/json"
 	"fmt"
 	"math/rand"
 	"os"
@@ -29,6 +30,7 @@ import (
 	sdk "github.com/cosmos/cosmos-sdk/types"
 	authtx "github.com/cosmos/cosmos-sdk/x/auth/tx"
 
+	fundraising "github.com/tendermint/fundraising/x/fundraising/module"
 	"github.com/tendermint/fundraising/x/fundraising/types"
 )
 
@@ -223,6 +225,67 @@ func filterDump(l []string) []string {
 	return out
 }
 
+var appExports int
+
+// appExport: what a node operator gets from `fundraisingd export` (app/export.go -> module manager ->
+// AppModule.ExportGenesis) must carry the same fundraising genesis as the module-level export used by the GENESIS
+// operation of the shortcut path, and must pass the module's ValidateGenesis as the application calls it
+func (b *FullEnv) appExport() (diff string) {
+	defer func() {
+		if r := recover(); r != nil {
+			diff = fmt.Sprintf("proj=genesis.app_export model=[module-level export] impl=[application export panicked: %v]", r)
+		}
+	}()
+	appExports++
+	exp, err := b.app.ExportAppStateAndValidators(false, nil, nil)
+	if err != nil {
+		return "proj=genesis.app_export model=[module-level export] impl=[application export failed: " + oneLine(err.Error()) + "]"
+	}
+	var state map[string]json.RawMessage
+	if err := json.Unmarshal(exp.AppState, &state); err != nil {
+		return "proj=genesis.app_export model=[module-level export] impl=[application state is not a JSON object: " + oneLine(err.Error()) + "]"
+	}
+	raw, ok := state[types.ModuleName]
+	if !ok {
+		return "proj=genesis.app_export model=[module-level export] impl=[the application export has no fundraising section]"
+	}
+	cdc := b.app.AppCodec()
+	if err := fundraising.NewAppModuleBasic(cdc).ValidateGenesis(cdc, b.txCfg, raw); err != nil {
+		return "proj=genesis.app_export model=[valid] impl=[ValidateGenesis rejects the application's own export: " + oneLine(err.Error()) + "]"
+	}
+	var gs types.GenesisState
+	if err := cdc.UnmarshalJSON(raw, &gs); err != nil {
+		return "proj=genesis.app_export model=[module-level export] impl=[cannot decode: " + oneLine(err.Error()) + "]"
+	}
+	direct, err := fundraising.ExportGenesis(b.ctx, b.k)
+	if err != nil {
+		return "proj=genesis.app_export model=[module-level export failed: " + oneLine(err.Error()) + "] impl=[application export ok]"
+	}
+	x, y := string(cdc.MustMarshalJSON(direct)), string(cdc.MustMarshalJSON(&gs))
+	if x != y {
+		i := 0
+		for i < len(x) && i < len(y) && x[i] == y[i] {
+			i++
+		}
+		lo := i - 60
+		if lo < 0 {
+			lo = 0
+		}
+		cut := func(s string) string {
+			hi := i + 80
+			if hi > len(s) {
+				hi = len(s)
+			}
+			if lo > len(s) {
+				return ""
+			}
+			return s[lo:hi]
+		}
+		return "proj=genesis.app_export model=[module-level: ..." + cut(x) + "] impl=[application: ..." + cut(y) + "]"
+	}
+	return ""
+}
+
 // runFullApp executes one generated history on both paths and reports the first difference
 func runFullApp(w *bufio.Writer, id int, profile string, seed uint64, nOps int) (steps, txs int, diff string) {
 	useKeyedUsers = true
@@ -320,6 +383,11 @@ func runFullApp(w *bufio.Writer, id int, profile string, seed uint64, nOps int) 
 		}
 		if d := cmp(o, ra, rb); d != "" {
 			return steps, txs, fmt.Sprintf("step=%d op=[%s] %s", steps-1, o.String(), d)
+		}
+		if rb.Class != "blockerr" && rb.Class != "panic" && (i == nOps-1 || g.r.P(6)) {
+			if d := b.appExport(); d != "" {
+				return steps, txs, fmt.Sprintf("step=%d op=[%s] %s", steps-1, o.String(), d)
+			}
 		}
 		if ra.Class == "blockerr" || ra.Class == "panic" {
 			break
